@@ -160,11 +160,24 @@ def exact_nnls(A, y):
     return best
 
 
+_FIRST_CALL_IN_PROCESS = [True]
+
+
 def prop(case):
     from glotaran.optimization.nnls import residual_nnls
     from glotaran.optimization.variable_projection import residual_variable_projection
 
     A, y_given = build(case)
+    if _FIRST_CALL_IN_PROCESS[0]:
+        # the very first call of the process is a single precision "preview" (matrix and data float32): what is set up on first use
+        # must not decide how later double precision problems are solved
+        _FIRST_CALL_IN_PROCESS[0] = False
+        try:
+            fn_ = residual_variable_projection if case["fn"] == "vp" else residual_nnls
+            fn_(np.asarray(A, dtype=np.float32), np.asarray(y_given, dtype=np.float32))
+            residual_variable_projection(np.asarray(A, dtype=np.float32), np.asarray(y_given, dtype=np.float32))
+        except Exception:  # noqa: BLE001
+            pass
     out = _verify(case, A, y_given, "")
     if A.flags.writeable and y_given.flags.writeable and y_given.dtype == np.float64 and A.shape[0] >= 2:
         # the same array objects again, refilled in place (a preallocated buffer while scanning a parameter): the answer is for the
@@ -203,6 +216,8 @@ def _verify(case, A, y_given, sfx):
             clp, r = residual_variable_projection(A, y_given)
         clp, r = np.asarray(clp), np.asarray(r)
         check(np.array_equal(A, A0) and np.array_equal(y_given, y0) and y_given.dtype == y0.dtype, "vp.inputs_unchanged")
+        check(not np.shares_memory(r, y_given) and not np.shares_memory(r, A) and not np.shares_memory(clp, A) and clp.dtype == np.float64 and r.dtype == np.float64,
+              "vp.result_aliases_input_or_not_double" + sfx, lambda: f"dtypes {clp.dtype} {r.dtype}")
         check(clp.shape == (n,) and r.shape == (m,), "vp.shape" + sfx, f"{clp.shape} {r.shape}")
         check(np.all(np.isfinite(clp)) and np.all(np.isfinite(r)), "vp.finite" + sfx)
         beta = EPS * (normA * np.linalg.norm(clp) + np.linalg.norm(y))
@@ -219,6 +234,8 @@ def _verify(case, A, y_given, sfx):
         clp, r = residual_nnls(A, y_given)
     clp, r = np.asarray(clp), np.asarray(r)
     check(np.array_equal(A, A0) and np.array_equal(y_given, y0), "nnls.inputs_unchanged")
+    check(not np.shares_memory(r, y_given) and not np.shares_memory(r, A) and not np.shares_memory(clp, A), "nnls.result_aliases_input" + sfx,
+          "the returned residual / clp is a view of the caller's data or matrix")
     check(clp.shape == (n,) and r.shape == (m,), "nnls.shape" + sfx)
     check(np.all(clp >= 0), "nnls.nonneg" + sfx, lambda: f"min clp {clp.min()}")
     beta = EPS * (normA * np.linalg.norm(clp) + np.linalg.norm(y))
